@@ -359,6 +359,49 @@ def install(eng):
                 st1.assume(eng.external_ref_fact(st1, res))
                 yield st1, SV(res)
 
+    def dict_get(eng, st, args, kw):
+        """dict.get on a concrete dict with a symbolic key: one path per key, one for 'absent'."""
+        d, key = args[0], args[1]
+        default = args[2] if len(args) > 2 else None
+        if not isinstance(d, dict):
+            raise Unsupported("dict.get on a non-concrete dict")
+        kt = eng.lift(key, st)
+        for k, v in d.items():
+            st2 = st.copy()
+            st2.assume(ops.eq_term(eng, kt, eng.lift(k, st2)))
+            if eng.feasible(st2):
+                yield st2, v
+        st.assume(*[z3.Not(ops.eq_term(eng, kt, eng.lift(k, st))) for k in d])
+        if eng.feasible(st):
+            yield st, default
+
+    eng.method_models[(dict, "get")] = Model("dict.get", dict_get)
+
+    def _all_any(is_all):
+        def fn(eng, st, args, kw):
+            from .engine import lib_to_iter
+
+            items = lib_to_iter(eng, st, args[0])
+            if not isinstance(items, list):
+                raise Unsupported("all()/any() over an iterable of symbolic length")
+            terms = []
+            for it in items:
+                rs = list(eng.truthy(it, st))
+                if len(rs) != 1 or isinstance(rs[0][1], Raise):
+                    raise Unsupported("all()/any(): element truth value forks")
+                c = rs[0][1]
+                terms.append(c if not isinstance(c, bool) else z3.BoolVal(c))
+            if not terms:
+                yield st, is_all
+                return
+            yield st, SV(V.mk_bool(z3.And(*terms) if is_all else z3.Or(*terms)))
+
+        return fn
+
+    import builtins as _b
+
+    eng.models[id(_b.all)] = Model("all", _all_any(True))
+    eng.models[id(_b.any)] = Model("any", _all_any(False))
     eng.method_models[(list, "append")] = Model("list.append", list_append)
     eng.method_models[(list, "pop")] = Model("list.pop", list_pop)
 
